@@ -300,6 +300,39 @@ func runC03(c *fw.Ctx) {
 			}
 		})
 	}
+	// operands holding NaN and infinities: the order comparisons are IEEE comparisons (anything against a NaN is 0, infinities are ordered),
+	// Eq / Ne with a NaN (never equal) and with opposite infinities or an infinity against a finite value (different) - same-sign
+	// infinities are left open for Eq / Ne, as the statement leaves them
+	for i := 0; i < c.Pick(800, 10000); i++ {
+		c.Case(func(k *fw.K) {
+			r := k.Rng
+			shape := RandShape(r, 0, 3, 3)
+			a := Shuffled(r, Unique(r, shape, 0.1, 3))
+			b := Shuffled(r, Unique(r, shape, 0.1, 3))
+			op := []string{"gt", "ge", "lt", "le", "eq", "ne"}[r.Intn(6)]
+			sp := []float64{math.NaN(), math.Inf(1), math.Inf(-1)}
+			for i := range a.Data {
+				switch r.Intn(5) {
+				case 0:
+					a.Data[i] = sp[r.Intn(3)]
+				case 1:
+					b.Data[i] = sp[r.Intn(3)]
+				case 2:
+					a.Data[i], b.Data[i] = sp[r.Intn(3)], sp[r.Intn(3)]
+				}
+				if (op == "eq" || op == "ne") && math.IsInf(a.Data[i], 0) && a.Data[i] == b.Data[i] {
+					b.Data[i] = -a.Data[i] // same-sign infinities: unspecified for Eq / Ne
+				}
+			}
+			in := ref.Instr{Op: op}
+			k.Case = fcase{In: in, Ops: []*ref.T{a, b}, Tag: "NaN and infinities"}
+			k.Key("%s/%s/non-finite", op, shapeKey(shape))
+			k.Count("comparisons_over_non_finite_operands", 1)
+			if msg := forwardCase(in, []*ref.T{a, b}, true); msg != "" {
+				k.Failf("%s on shape %v [operands holding NaN and infinities]: %s", op, shape, msg)
+			}
+		})
+	}
 	// Pow with exponents of tiny magnitude that are NOT zero (1e-300, -1e-300, 5e-324, 1e-17): 0^a is 0 or +Inf, negative^a is NaN,
 	// positive^a is 1 to within an ulp - exactly what Pow with exponent 0 does NOT give for the first two
 	for i := 0; i < c.Pick(300, 3000); i++ {
